@@ -15,15 +15,17 @@ import XpmVerif.Model.GenPath
     * `addPre n t` — `add_pretasks` (`SealedError` on a sealed object: no effect).
     * `copyDeps c o` — `copy_dependencies`: `c.task = o.task` when `o.task` is set (no sealed check in
       the source; the `assert self.task is None` is not modelled: more histories).
-    * `submit root inits outs` — `ConfigInformation.submit`: `init_tasks := inits` (even on a sealed
-      object), the `Sealer` walk from `root` under `JobContext(job of root)` (stops at sealed objects,
-      generates the paths of an unsealed object at its first visit, seals it), `root.task := root`,
+    * `submit root inits outs` — `ConfigInformation.submit`: raises when the *same object* was submitted
+      before (`self.job` is set: no effect; the model also ignores a `root` that does not exist); else
+      `init_tasks := inits` (even on a sealed object), the `Sealer` walk from `root` under
+      `JobContext(job of root)` (stops at sealed objects, generates the paths of an unsealed object at its
+      first visit, seals it), then the `Sealer` walk of every init task under `__init_tasks__` / index (for a
+      task sealed before its submission — as a parameter of another task, by `instance()` — the first walk
+      does nothing and these walks seal the init tasks; otherwise they do nothing), `root.task := root`,
       then `task_outputs(mark_output)`: every object of `outs` gets `task := root`.  `task_outputs`
       is user code: the marked objects can be parameters of the task (sealed by this walk), objects
       sealed before, or fresh objects (unsealed: `dep(Model(...))`) — no restriction in the model.
-      The source raises when the *same object* is submitted twice (`self.job` is set); the model
-      lets the second submission run (it is a no-op on paths: `resubmit_same_paths`), which also
-      covers a task object sealed as a parameter of another task and submitted afterwards.
+      The "submitted once" guard matters: `resubmission_would_collide` (Properties/C17Hist.lean).
     * `mark root o` — one `mark_output` call on its own (user code of `task_outputs` interleaves
       constructions, `add_pretasks` and `dep(...)` calls): no effect unless `root` is sealed
       (`mark_output` is only reachable after `validate_and_seal`).
@@ -71,6 +73,8 @@ def markOutputs (g : Graph) (root : NodeId) (outs : List NodeId) : Graph :=
 structure HState where
   g : Graph
   paths : List (NodeId × Entry) := []
+  /-- the objects that were submitted (`__xpm__.job` is set) -/
+  jobs : List NodeId := []
   deriving Repr
 
 def HState.step (enc : Str → Str) (s : HState) : Op → HState
@@ -80,13 +84,15 @@ def HState.step (enc : Str → Str) (s : HState) : Op → HState
   | .copyDeps c o => { s with g := copyDeps s.g c o }
   | .mark r o => { s with g := markOutput s.g r o }
   | .submit root inits outs =>
+    if root ∈ s.jobs ∨ s.g.node root = none then s else
     { g := markOutputs (submit enc s.g root inits).1 root outs
-      paths := s.paths ++ (submit enc s.g root inits).2.map (fun e => (root, e)) }
+      paths := s.paths ++ (submit enc s.g root inits).2.map (fun e => (root, e))
+      jobs := root :: s.jobs }
 
 def Hist.exec (enc : Str → Str) (s : HState) (ops : List Op) : HState := ops.foldl (HState.step enc) s
 
 /-- the graph after the history `ops` from the initial graph `g0`. -/
-def Hist.run (enc : Str → Str) (g0 : Graph) (ops : List Op) : Graph := (Hist.exec enc ⟨g0, []⟩ ops).g
+def Hist.run (enc : Str → Str) (g0 : Graph) (ops : List Op) : Graph := (Hist.exec enc ⟨g0, [], []⟩ ops).g
 
 /-- the generated-path attribute `a` of object `n`: the task whose job directory it is relative to,
     and the relative path (`none`: not generated yet). -/
